@@ -58,7 +58,12 @@ func (o *Object) String() string {
 }
 
 func (o *Object) IsSpatial() bool {
-	_, ok := o.geo.(geojson.Spatial)
+	g := o.geo
+	if _, ok := g.(*geojson.Circle); ok {
+		// a circle is a geometry although it only hands out a Spatial
+		return true
+	}
+	_, ok := g.(geojson.Spatial)
 	return ok
 }
 
